@@ -15,7 +15,7 @@ TECH = {
     'C02': 'Verus contracts (alignment/order clauses of WF, align_bytes) on extracted functions; Kani bounded contract of max_size/max_type_align; bounded stand-in for simple()',
     'C03': 'Verus frame clause of the strategy contract on extracted functions; bounded stand-in for simple(); Kani on generated modules for size/align equality',
     'C12': 'Verus: builder invariant preserved by every public operation (functions extracted from /repo each run); strategy membership clause; bounded stand-in for simple()',
-    'C18': 'Verus: postcondition of every add_* entry point against an abstract type resolver',
+    'C18': 'Verus: postcondition of every add_* entry point against an abstract type resolver; add_dynamic_datum: Kani harness-level contract (bounded builder state)',
     'C04': 'Kani: contracts of generated new / new_uninit / accessors / unpack on real generated modules (corpus), symbolic field values',
     'C05': 'Kani: contracts of the four generated From impls and of a conversion chain on real generated modules (corpus)',
     'C06': 'Kani: ghost drop counters + CBMC double-free / memory-leak checks on real generated modules (corpus)',
@@ -24,11 +24,11 @@ TECH = {
     'C17': 'bounded stand-in only (no verifier reaches the syn/quote string pipeline): native execution over a grammar of 2400 types, names compared with the source tokens of the type',
     'C19': 'bounded stand-in only (two-run property over functions no verifier reaches): every history within a bound replayed twice in-process and in two processes, outputs compared',
     'C20': 'bounded stand-in only (no verifier reaches the function): native bounded-exhaustive execution of convert_record_definition against its postcondition',
-    'C16': 'Kani: contracts of generated clone / clone_from on real generated modules (corpus)',
+    'C16': 'Kani: contracts of generated clone / clone_from on real generated modules (corpus); panic clause: bounded native stand-in (injected clone panics)',
     'C13': 'Verus: panic-freedom of the text rendering under the variant invariant; Kani: panic-freedom and bounds of max_size / max_type_align on every builder-reachable state (bounded)',
-    'C08': 'Kani: postcondition of try_convert_vec_in_place checked with a specification converter, bounded vector length',
-    'C09': 'Kani: error-arm postcondition with ghost drop counters and CBMC memory-leak check, bounded vector length',
-    'C10': 'Kani: per type pair the refusal assertion is the only failing check and the converter is unreachable',
+    'C08': 'Kani: postcondition of try_convert_vec_in_place checked with a specification converter, bounded vector length; bounded native stand-in re-checks longer vectors in an optimised build',
+    'C09': 'Kani: error-arm postcondition with ghost drop counters and CBMC memory-leak check, bounded vector length; panic half: bounded native stand-in (drop ledger, counting allocator, payload identity)',
+    'C10': 'Kani: per type pair the refusal assertion is the only failing check and the converter is unreachable; drop-after-refusal clause: bounded native stand-in',
 }
 
 def main():
